@@ -15,6 +15,7 @@ package props
 
 import (
 	"fmt"
+	"strings"
 	"sync"
 	"sync/atomic"
 	"testing"
@@ -95,6 +96,12 @@ func runC12Exp(c c12ExpCase) *vlib.Outcome {
 	ctx0 := locCtx(loc)
 	must := func(what string, err error) bool {
 		if err != nil {
+			if strings.Contains(err.Error(), "expired") {
+				// the set-up was too slow (busy machine): the instant
+				// has arrived already; nothing to learn
+				o.Discard = true
+				return false
+			}
 			o.Fail("SETUP", "%s: %v", what, err)
 			return false
 		}
